@@ -215,7 +215,8 @@ def run(ctx):
                         if quick and m == "disk" and so in (U, 1):
                             continue
                         cases.append({"t": t, "n": n, "split_every": se, "split_out": so, "shuffle_method": m})
-    for t in ("gb_first_last", "gb_first", "gb_idxmin", "gb_multi_first", "gb_value_counts", "gb_multi_value_counts"):
+    # (groupby idxmin / idxmax are wrong whatever the knobs: recorded under C02, KF-groupby-idxmax-first-partition)
+    for t in ("gb_first_last", "gb_first", "gb_multi_first", "gb_value_counts", "gb_multi_value_counts"):
         for n in ns:
             for so in (U, 1, 2, 3):
                 for m in (U, "tasks", "disk"):
